@@ -302,6 +302,28 @@ fn canonicalize(
     Ok(buf)
 }
 
+/// Canonical form that is signed and hashed into key ids: OLPC canonical JSON
+/// as produced by the in-toto reference implementations (`encode_canonical`),
+/// where only `\` and `"` are escaped inside strings and every other
+/// character, control characters included, is emitted as raw UTF-8.
+pub(crate) fn canonicalize_olpc(jsn: &serde_json::Value) -> Result<Vec<u8>> {
+    let converted = convert(jsn).map_err(Error::Opaque)?;
+    let mut buf = Vec::new();
+    converted.write_with(&mut buf, true).map_err(Error::Opaque)?;
+    Ok(buf)
+}
+
+fn write_olpc_string(s: &str, buf: &mut Vec<u8>) {
+    buf.push(b'"');
+    for b in s.bytes() {
+        if b == b'\\' || b == b'"' {
+            buf.push(b'\\');
+        }
+        buf.push(b);
+    }
+    buf.push(b'"');
+}
+
 enum Value {
     Array(Vec<Value>),
     Bool(bool),
@@ -313,6 +335,14 @@ enum Value {
 
 impl Value {
     fn write(&self, buf: &mut Vec<u8>) -> std::result::Result<(), String> {
+        self.write_with(buf, false)
+    }
+
+    fn write_with(
+        &self,
+        buf: &mut Vec<u8>,
+        olpc: bool,
+    ) -> std::result::Result<(), String> {
         match *self {
             Value::Null => {
                 buf.extend(b"null");
@@ -338,6 +368,10 @@ impl Value {
                 buf.extend(txt.as_bytes());
                 Ok(())
             }
+            Value::String(ref s) if olpc => {
+                write_olpc_string(s, buf);
+                Ok(())
+            }
             Value::String(ref s) => {
                 // this mess is abusing serde_json to get json escaping
                 let s = serde_json::Value::String(s.clone());
@@ -353,7 +387,7 @@ impl Value {
                     if !first {
                         buf.push(b',');
                     }
-                    a.write(buf)?;
+                    a.write_with(buf, olpc)?;
                     first = false;
                 }
                 buf.push(b']');
@@ -368,14 +402,18 @@ impl Value {
                     }
                     first = false;
 
-                    // this mess is abusing serde_json to get json escaping
-                    let k = serde_json::Value::String(k.clone());
-                    let k = serde_json::to_string(&k)
-                        .map_err(|e| format!("{:?}", e))?;
-                    buf.extend(k.as_bytes());
+                    if olpc {
+                        write_olpc_string(k, buf);
+                    } else {
+                        // this mess is abusing serde_json to get json escaping
+                        let k = serde_json::Value::String(k.clone());
+                        let k = serde_json::to_string(&k)
+                            .map_err(|e| format!("{:?}", e))?;
+                        buf.extend(k.as_bytes());
+                    }
 
                     buf.push(b':');
-                    v.write(buf)?;
+                    v.write_with(buf, olpc)?;
                 }
                 buf.push(b'}');
                 Ok(())
